@@ -83,9 +83,13 @@ pub fn diff_shape(a: &str, b: &str) -> String { diff_tags(a, b).join("+") }
 
 /// operations that relocate cells by re-typing them / re-parse every stored formula share causes
 pub fn group(kind: &str) -> &str {
-    match kind {
+    if kind.starts_with("input@array") || kind.starts_with("input@spill") { return "input-array"; }
+    match kind.split(|c| c == '@' || c == '/').next().unwrap_or(kind) {
         "insert_rows" | "insert_columns" | "delete_rows" | "delete_columns" | "move_rows" | "move_columns" => "structural",
-        k => k,
+        "input-array" => "input-array",
+        "array_formula" => "array_formula",
+        "rename_sheet" => "rename_sheet",
+        _ => kind,
     }
 }
 
@@ -95,7 +99,8 @@ pub fn group(kind: &str) -> &str {
 /// all, a deleted sheet comes back without its links): one coarse class per group. Their own
 /// properties (C12-C16, C31, C33) examine them in detail.
 fn coarse(group: &str) -> bool {
-    matches!(group, "structural" | "delete_sheet" | "copy_paste" | "cut_paste" | "paste_csv" | "auto_fill_rows" | "auto_fill_columns")
+    matches!(group, "structural" | "delete_sheet" | "copy_paste" | "cut_paste" | "paste_csv" | "auto_fill_rows" | "auto_fill_columns"
+        | "rename_sheet" | "array_formula" | "input-array")
 }
 
 /// report one failure per tag, so that classes name causes rather than combinations
@@ -137,7 +142,18 @@ fn kind_ctx(m: &UserModel, op: &Op) -> String {
                 None => "absent", Some(Cell::EmptyCell { .. }) => "empty", Some(Cell::SpillCell { .. }) => "spill",
                 Some(Cell::ArrayFormula { .. }) => "array", Some(Cell::CellFormula { .. }) => "formula", Some(_) => "value",
             };
-            format!("input@{what}")
+            let hidden = m.get_model().workbook.worksheets.get(*sheet as usize).map(|w| w.is_row_hidden(*row).unwrap_or(false)).unwrap_or(false);
+            format!("input@{what}{}", if hidden { "/hidden" } else { "" })
+        }
+        Op::ColsWidth { sheet, a, b: b2, .. } | Op::ColsHidden { sheet, a, b: b2, .. } => {
+            let hidden = m.get_model().workbook.worksheets.get(*sheet as usize)
+                .map(|w| (*a..=*b2).any(|c| w.is_column_hidden(c).unwrap_or(false))).unwrap_or(false);
+            format!("{}{}", kind(op), if hidden { "/hidden" } else { "" })
+        }
+        Op::RowsHeight { sheet, a, b: b2, .. } | Op::RowsHidden { sheet, a, b: b2, .. } => {
+            let hidden = m.get_model().workbook.worksheets.get(*sheet as usize)
+                .map(|w| (*a..=*b2).any(|r| w.is_row_hidden(r).unwrap_or(false))).unwrap_or(false);
+            format!("{}{}", kind(op), if hidden { "/hidden" } else { "" })
         }
         o => kind(o).to_string(),
     }
@@ -191,7 +207,7 @@ pub fn run_c01(a: &Args) {
                     // a failed call that nevertheless changed something is property C04's finding;
                     // the rest of this history would only echo it
                     if snap(&m) != s0 || depths(&m) != d0 {
-                        let c = format!("c04-leak:{k}");
+                        let c = "c04-leak".to_string();
                         or.fail(&c, json!({"history": ops_json(&ops_done)}), format!("{k} returned Err but changed the workbook or the history (see C04)"));
                         failed_classes.push(c);
                         break;
@@ -259,6 +275,65 @@ fn finish(cs: Cases, or: Oracle, st: Stats, tags: BTreeMap<String, Vec<String>>)
     }));
 }
 
+/// C02, first phase: every recording operation is undone and redone at once; the snapshot after
+/// the redo must be the snapshot after the operation (redo re-runs the high-level call for most
+/// diff kinds, so this is where a wrong forward arm shows).
+fn c02_triples(a: &Args, rng: &mut Rng, cs: &mut Cases, or: &mut Oracle, st: &mut Stats, tags: &mut BTreeMap<String, Vec<String>>) {
+    let (nh, maxl) = lens(a);
+    for _ in 0..(nh / 2) {
+        let mut m = fresh();
+        let mut it = Interner::new();
+        it.id(&snap(&m));
+        let mut ev_in: Vec<String> = vec![];
+        let mut ev_out: Vec<String> = vec![];
+        let mut ops_done: Vec<Op> = vec![];
+        let mut failed_classes: Vec<String> = vec![];
+        st.histories += 1;
+        for _ in 0..rng.range(6, maxl as i64) {
+            let op = gen_op(rng, &ctx_of(&m), false);
+            let k = kind(&op);
+            let kc = kind_ctx(&m, &op);
+            *st.kinds.entry(k.to_string()).or_insert(0) += 1;
+            m.evaluate();
+            let s0 = snap(&m);
+            let d0 = depths(&m);
+            ops_done.push(op.clone());
+            match guarded(|| apply_op(&mut m, &op)) {
+                Err(()) => { let c = format!("panic:{k}"); or.fail(&c, json!({"history": ops_json(&ops_done)}), format!("{k} panicked")); failed_classes.push(c); break; }
+                Ok(Err(_)) => { st.err += 1; if snap(&m) != s0 || depths(&m) != d0 { let c = "c04-leak".to_string(); or.fail(&c, json!({"history": ops_json(&ops_done)}), format!("{k} returned Err but changed the workbook or the history (see C04)")); failed_classes.push(c); break; } continue; }
+                Ok(Ok(())) => {}
+            }
+            st.ok += 1;
+            if depths(&m).0 != d0.0 + 1 { st.nopush += 1; continue; }
+            m.evaluate();
+            let kc = kind_ctx_after(&m, &op, &kc);
+            let s1 = snap(&m);
+            ev_in.push(format!("d{}", it.id(&s1)));
+            ev_out.push(format!("{}:1:0", it.id(&s1)));
+            if !matches!(guarded(|| m.undo()), Ok(Ok(()))) { break; }
+            let s0b = snap(&m);
+            ev_in.push("u".into());
+            ev_out.push(format!("{}:{}:{}", it.id(&s0b), b(m.can_undo()), b(m.can_redo())));
+            if s0b != s0 { break; } // an unfaithful undo is C01's finding; what follows would echo it
+            or.checked += 1;
+            match guarded(|| m.redo()) {
+                Err(()) => { let c = format!("panic:redo:{k}"); or.fail(&c, json!({"history": ops_json(&ops_done)}), "redo panicked".into()); failed_classes.push(c); break; }
+                Ok(Err(e)) => { let c = format!("redo-error:{}", group(k)); or.fail(&c, json!({"history": ops_json(&ops_done)}), format!("redo of {k} returned Err({e})")); failed_classes.push(c); break; }
+                Ok(Ok(())) => {}
+            }
+            let s1b = snap(&m);
+            ev_in.push("r".into());
+            ev_out.push(format!("{}:{}:{}", it.id(&s1b), b(m.can_undo()), b(m.can_redo())));
+            if s1b != s1 {
+                fail_tags(or, &mut failed_classes, "redo", &kc, &s1, &s1b, json!({"history": ops_json(&ops_done), "diff": snap_diff(&s1, &s1b, 4)}), format!("op; undo; redo: redo of {k} did not reproduce the state that followed the operation"));
+                break;
+            }
+        }
+        if !failed_classes.is_empty() { tags.insert(cs.n.to_string(), failed_classes); }
+        cs.case(&format!("hist {}", ev_in.join(" ")), &ev_out.join(" "));
+    }
+}
+
 /// C02: random walks of the cursor. The expected snapshot after every undo/redo is the one
 /// recorded when that state was first reached (the cursor specification).
 pub fn run_c02(a: &Args) {
@@ -268,6 +343,7 @@ pub fn run_c02(a: &Args) {
     let mut st = Stats::new();
     let mut tags: BTreeMap<String, Vec<String>> = BTreeMap::new();
     let (nh, maxl) = lens(a);
+    c02_triples(a, &mut rng, &mut cs, &mut or, &mut st, &mut tags);
     for h in 0..nh {
         let mut m = fresh();
         let mut it = Interner::new();
@@ -297,7 +373,7 @@ pub fn run_c02(a: &Args) {
                     if !matches!(op, Op::Undo | Op::Redo) {
                         let dd = depths(&m);
                         if dd == d0 && snap(&m) == cur.0 { continue; }
-                        let c = format!("c04-leak:{k}");
+                        let c = "c04-leak".to_string();
                         or.fail(&c, json!({"history": ops_json(&ops_done)}), format!("{k} returned Err but changed the workbook or the history (see C04)"));
                         failed_classes.push(c);
                         break;
@@ -416,7 +492,7 @@ pub fn run_c03(a: &Args) {
             if res_class == "ok" { st.ok += 1 } else { st.err += 1 }
             // a call that failed must not have enqueued anything for the replicas
             if res_class == "err" && !matches!(op, Op::Undo | Op::Redo) && (d1 != d0 || snapshot(p.get_model(), &opts) != s_before) {
-                let c = format!("c04-leak:{k}");
+                let c = "c04-leak".to_string();
                 or.fail(&c, json!({"history": ops_json(&ops_done)}), format!("{k} returned Err but changed the workbook, the history or the outgoing queue (see C04)"));
                 failed_classes.push(c);
                 bad = true;
